@@ -5,6 +5,7 @@
 # License: http://snmplabs.com/pyasn1/license.html
 #
 import os
+import sys
 
 from pyasn1 import debug
 from pyasn1 import error
@@ -1650,6 +1651,13 @@ class SingleItemDecoder(object):
                         length <<= 8
                         length |= oct2int(lengthOctet)
                     size += 1
+
+                    if length > sys.maxsize:
+                        # no stream can hold that much, and read() would
+                        # fail with OverflowError
+                        raise error.PyAsn1Error(
+                            'Length %d at %s exceeds any possible '
+                            'substrate' % (length, tagSet))
 
                 else:  # 128 means indefinite
                     length = -1
